@@ -105,7 +105,7 @@ def nontrivial(tr):
 
 
 # ------------------------------------------------------------------------------------------ small scope
-def alphabet(t0, full):
+def alphabet(t0, level):
     """the per-datagram outcomes of the small-scope enumeration, for default time-out t0 and no overshoot:
     a command sent at 0 is retransmitted at t0 + 1 and times out again at 2 t0 + 2"""
     a = [["lost"],                                   # request lost
@@ -116,13 +116,14 @@ def alphabet(t0, full):
          ["dup", [OK, 1], [OK, 1]],                  # duplicated
          ["busy", [BUSY, 1]],                        # retryable
          ["fatal", [0x88, 1]]]
-    if full:
-        a += [["rlost"],                             # reply lost (the client cannot tell it from a lost request)
-              ["ok0", [OK, 0]],
+    if level >= 1:
+        a += [["ok0", [OK, 0]],
               ["edge", [OK, t0 + 1]],                # arrives at the instant the expiry is noticed
               ["duplate", [OK, 1], [OK, t0 + 2]],    # the copy arrives a time-out later
-              ["sum", [SUM, 1]],
               ["fatallate", [0x87, t0 + 2]]]
+    if level >= 2:
+        a += [["rlost"],                             # reply lost (the client cannot tell it from a lost request)
+              ["sum", [SUM, 1]]]                     # the other retryable code
     return a
 
 
@@ -157,10 +158,10 @@ def small_specs(chk):
                 if n == 0 and (w, tries) != (1, 1):
                     continue
                 out.append((dict(t0=t0, tries=tries, seqmod=4, bursts=[dict(n=n, window=w, extra=[0] * n)]),
-                            alphabet(t0, not chk.quick), ()))
+                            alphabet(t0, chk.pick(0, 1 if n == 3 else 2)), ()))
     # per-command extra time-out and an overshooting select
     out.append((dict(t0=t0, tries=2, seqmod=4, bursts=[dict(n=2, window=2, extra=[0, 3])]),
-                alphabet(t0, not chk.quick), (1, 0, 1, 0, 1, 0, 1, 0, 1, 0, 1, 0)))
+                alphabet(t0, chk.pick(0, 2)), (1, 0, 1, 0, 1, 0, 1, 0, 1, 0, 1, 0)))
     # two calls on one connection, sequence space of 4: late replies of the first call arrive during the second,
     # the sequence counter wraps inside the second call
     late = [["lost"], ["ok", [OK, 1]], ["late1", [OK, t0 + 2]], ["duplate", [OK, 1], [OK, t0 + 3]],
@@ -176,7 +177,7 @@ def small_specs(chk):
     # send_scp (a burst of one through the blocking interface)
     out.append((dict(t0=t0, tries=2, seqmod=4, bursts=[dict(n=1, window=1, extra=[0], via="scp"),
                                                        dict(n=1, window=1, extra=[2], via="scp")]),
-                alphabet(t0, not chk.quick), ()))
+                alphabet(t0, chk.pick(0, 2)), ()))
     return out
 
 
@@ -368,8 +369,11 @@ def run(chk):
     acts = ("SendNew", "RunCallback", "Recv", "Duplicate", "DropReply", "Retransmit", "RaiseTimeout", "Return",
             "NextBurst", "Tick")
     chk.design("ScpDesign", "ScpDesign_%s.cfg" % chk.tier, expect_actions=acts,
-               label="3 commands per burst, window 1-2, tries 1-2, 4 sequence numbers, 2 bursts; with the lifetime "
-                     "assumption")
+               label="3 commands per burst, window 1-2, tries 1-2, 4 sequence numbers, 2 bursts, network of <= %d "
+                     "replies, default time-out %d ticks; with the lifetime assumption" % (chk.pick(2, 4), chk.pick(1, 2)))
+    chk.design("ScpDesign", "ScpDesign_wrap.cfg", expect_actions=acts,
+               label="2 commands per burst, window 1-2, tries 1 or 3, 2 sequence numbers (constant wrap-around), "
+                     "3 bursts; with the lifetime assumption")
     r = chk.design("ScpDesign", "ScpDesign_nolifetime.cfg", allow_error=True,
                    label="the same without the lifetime assumption: must fail (wrong callback)")
     if r.ok or "Invariant RightReply is violated" not in (r.error or ""):
